@@ -30,6 +30,7 @@ def validate(steps):
     nent = {}
     own = {}
     depth = 0
+    subs = set()
     for st in steps:
         op = st["op"]
         if op in ("NEW", "NEW_LIB"):
@@ -58,7 +59,12 @@ def validate(steps):
             if arity == 0 and len(st["q"]) < 1:
                 return False
             nent[o] += 1
+        elif op == "ADD_OP_IN":
+            c = st["c"]
+            if c not in defined or not (0 <= st["k"] < nent[own[c]]) or (own[c], st["k"]) not in subs:
+                return False
         elif op == "ADD_SUB":
+            subs.add((own.get(st["c"]), nent.get(own.get(st["c"]), 0)))
             if st["c"] not in decl or st["child"] not in defined or st["c"] == st["child"]:
                 return False
             if own[st["c"]] == own[st["child"]]:
@@ -167,7 +173,19 @@ def _reindex(orig, out):
             k = cnt.get(o, 0)
             cnt[o] = k + 1
             newk[slot[id(o_st)]] = k
+    drop = []
     for o_st, s in zip(survivors, out):
+        if s["op"] == "ADD_OP_IN":
+            o = own.get(o_st["c"], o_st["c"])
+            tgt = (o, o_st["k"])
+            if tgt in newk:
+                s["k"] = newk[tgt]
+            else:
+                drop.append(id(s))
+    if drop:
+        out = [s for s in out if id(s) not in drop]
+        survivors = None
+    for o_st, s in (zip(survivors, out) if survivors is not None else []):
         if s["op"] == "ADD_OP" and s.get("rel") is not None:
             o = own.get(o_st["c"], o_st["c"])
             tgt = (o, o_st["rel"][1])
